@@ -6,7 +6,9 @@ import (
 	"strings"
 	"time"
 
+	yae "github.com/goghcrow/yae"
 	"github.com/goghcrow/yae/parser/ast"
+	"github.com/goghcrow/yae/types"
 	"github.com/goghcrow/yae/val"
 	"github.com/goghcrow/yae/vm"
 
@@ -65,6 +67,107 @@ func funTable(user []*ref.Fun) *ref.FunTable {
 	return ft
 }
 
+// engines: long-lived public engines, one per (set of harness functions,
+// compiler), shared by all cases of a worker process: whatever an engine
+// keeps between compilations (caches, lexers, tables) is exercised by every
+// program of the streams, not only by the dedicated history families.
+type liveEngine struct {
+	ex   *yae.Expr
+	sess *bridge.Session
+}
+
+var (
+	engines    = map[string]*liveEngine{}
+	engineKeys []string
+	// NoEngines switches the two engine back ends off (checks that count on
+	// exactly four back ends or on process-fresh state)
+	NoEngines = false
+)
+
+func engineFor(user []*ref.Fun, closureCompiler bool) *liveEngine {
+	key := fmt.Sprint(closureCompiler)
+	for _, f := range user {
+		key += fmt.Sprintf("|%p", f)
+	}
+	if e, ok := engines[key]; ok {
+		return e
+	}
+	if len(engineKeys) >= 48 { // sets built per case (fresh function objects) would pile up
+		delete(engines, engineKeys[0])
+		engineKeys = engineKeys[1:]
+	}
+	sess := bridge.NewSession(user)
+	ex := yae.NewExpr()
+	if closureCompiler {
+		ex.UseClosureCompiler()
+	}
+	ex.Compile("1", nil) // built-ins first, then the harness functions, as in the reference table
+	ex.RegisterFun(sess.UserVals...)
+	e := &liveEngine{ex, sess}
+	engines[key] = e
+	engineKeys = append(engineKeys, key)
+	return e
+}
+
+// runOnEngine: the case through a long-lived public engine.
+func runOnEngine(pc *ProgCase, envs []*bridge.Env, obs []*ProgObs, b bridge.Backend, vmType *types.Type) {
+	eng := engineFor(pc.User, b == bridge.EngineClosure)
+	var cl yae.Callable
+	var cerr *bridge.CompileErr
+	func() {
+		defer func() {
+			if r := recover(); r != nil {
+				cerr = &bridge.CompileErr{Stage: "engine-panic", Msg: fmt.Sprint(r)}
+			}
+		}()
+		c, err := eng.ex.Compile(pc.Src, pc.Env.TypeEnv())
+		if err != nil {
+			// the engine does not say at which stage it refused: take the stage
+			// the plain pipeline reports for the same program
+			stage := "check"
+			if vb := obs[0].Back[bridge.VM]; vb != nil && vb.CompErr != nil {
+				stage = vb.CompErr.Stage
+			}
+			cerr = &bridge.CompileErr{Stage: stage, Msg: err.Error()}
+			return
+		}
+		cl = c
+	}()
+	var rt *val.Env
+	for i, env := range envs {
+		bo := &BackObs{}
+		obs[i].Back[b] = bo
+		if cerr != nil {
+			bo.CompErr = cerr
+			continue
+		}
+		if vb := obs[i].Back[bridge.VM]; vb != nil && vb.CompErr == nil {
+			bo.Type = vb.Type
+		}
+		venv := env.ValEnv()
+		if pc.SameEnvObject {
+			if i == 0 {
+				rt = venv
+			} else {
+				for _, n := range env.Names {
+					rt.Put(n, bridge.ToVal(env.V[n]))
+				}
+			}
+			venv = rt
+		}
+		bo.Res = eng.sess.ExecFunc(func() *val.Val {
+			v, err := cl(venv)
+			if err != nil {
+				panic(err.Error())
+			}
+			return v
+		})
+		if bo.Res.Class == bridge.OValue {
+			bo.RV, bo.Ill = bridge.FromVal(bo.Res.Val, vmType)
+		}
+	}
+}
+
 // RunProg runs the reference (if an expression is given) and the real back
 // ends on one case. It never panics; host panics are observations.
 func RunProg(pc *ProgCase) *ProgObs { return RunProgMulti(pc, nil)[0] }
@@ -94,8 +197,16 @@ func RunProgMulti(pc *ProgCase, more []*bridge.Env) []*ProgObs {
 	backs := pc.Back
 	if backs == nil {
 		backs = []bridge.Backend{bridge.VM, bridge.VMCall, bridge.Closure, bridge.Interp}
+		if !NoEngines && !pc.AsAST {
+			backs = append(backs, bridge.Engine, bridge.EngineClosure)
+		}
 	}
+	var vmType *types.Type
 	for _, b := range backs {
+		if b == bridge.Engine || b == bridge.EngineClosure {
+			runOnEngine(pc, envs, obs, b, vmType)
+			continue
+		}
 		sess := bridge.NewSession(pc.User)
 		var c *bridge.Compiled
 		var cerr *bridge.CompileErr
@@ -116,6 +227,9 @@ func RunProgMulti(pc *ProgCase, more []*bridge.Env) []*ProgObs {
 			}
 		} else {
 			c, cerr = sess.Compile(pc.Src, pc.Env.TypeEnv(), b)
+		}
+		if cerr == nil && b == bridge.VM {
+			vmType = c.Type
 		}
 		var bc *bridge.BCInfo
 		var bcErr error
